@@ -12,6 +12,7 @@ mod edwards;
 mod foreign;
 mod keycmp;
 mod native;
+mod poseidon;
 mod zkirfam;
 
 use std::collections::BTreeMap;
@@ -148,6 +149,20 @@ fn main() {
             let prover = MockProver::<F>::run(k, &circuit, vec![vec![], pi]).expect("synthesis (pass 2)");
             let kv = if want_keygen() { keycmp::keygen_view(k, &circuit).unwrap_or_else(|e| json!({"error": format!("{e:?}")})) } else { J::Null };
             finish(prover, rec, replay, json!({"family": "edwards", "op": spec.op, "params": spec.params, "curve_d": edwards::curve_d_hex()}), kv);
+        }
+        "poseidon" => {
+            if spec.op.starts_with("cpu_") {
+                poseidon::cpu_main(&spec);
+                return;
+            }
+            let io = native::IoLog::default();
+            let circuit = poseidon::PoseidonCircuit { spec: spec.clone(), io: io.clone() };
+            let _ = MockProver::<F>::run(k, &circuit, vec![vec![], vec![]]).expect("synthesis (pass 1)");
+            let rec: Vec<(bool, F)> = io.0.borrow().clone();
+            let pi: Vec<F> = rec.iter().map(|x| x.1).collect();
+            let prover = MockProver::<F>::run(k, &circuit, vec![vec![], pi]).expect("synthesis (pass 2)");
+            let kv = if want_keygen() { keycmp::keygen_view(k, &circuit).unwrap_or_else(|e| json!({"error": format!("{e:?}")})) } else { J::Null };
+            finish(prover, rec, replay, poseidon::extra(&spec), kv);
         }
         "zkir" => {
             let path = spec.params.get("prog").expect("p.prog=<file>").clone();
